@@ -195,3 +195,72 @@ def bounded_checks(tier, seed):
                     "bound": f"{n} classes, <= 3 ordered bases each (cycles included), member x placed in every subset of classes" if members == "1" else f"{n} classes, <= 3 ordered bases each (time budget {budget}s)",
                     "cases": d["hierarchies"] + d["c3_inputs"], "failing": len(d["bad"]), "wall_s": round(time.time() - t0, 1), "violations": d["bad"]})
     return out
+
+
+# --------------------------------------------------------------------------- Class.resolved_bases: one base at a time
+@contract("C07", "resolved_bases.per_base", [MD + "Class.resolved_bases"], floor=5, replay="replay_hierarchies")
+def c_resolved_bases(P):
+    """One arbitrary base of a class with any number of bases, from any list of bases resolved so far: a base that is found in the collection (through
+    an alias when it is one) is appended, in source order, after the ones already there; a base that is not loaded, not static, or an alias that cannot be
+    resolved is skipped -- and only skipped: the bases written after it are still looked at (CPython's MRO has them), nothing raises."""
+    H = Heap(P)
+    cls = H.obj("cls", ["Class"])
+    coll = H.collection("coll")
+    P.attr_hooks[("Object", "modules_collection")] = lambda P_, o: coll
+    BASE_IS_STR = z3.Function("BASE_IS_A_STRING", IntS, BoolS)
+    BASE_PATH = z3.Function("BASE_PATH", IntS, StrS)
+
+    def mk_base(i):
+        zi = zint(i)
+        return SUnion([(BASE_IS_STR(zi), SStr(BASE_PATH(zi))),
+                       (z3.Not(BASE_IS_STR(zi)), SObj("ExprName", {"canonical_path": SStr(BASE_PATH(zi))}, ident=z3.Function("BASE_EXPR_ID", IntS, IntS)(zi), frozen=True))])
+    bases = sym_seq(P, "bases", mk_base)
+    cls.fields["bases"] = bases
+    P.attr_hooks[("ExprName", "canonical_path")] = lambda P_, o: o.fields["canonical_path"] if "canonical_path" in o.fields else models.NOATTR
+    # the lookup of one base path: missing, an object, or an alias whose final target is an object / cannot be resolved (either alias error)
+    looked = []
+
+    def get_member(P_, a, k):
+        oc = z3.Int(P_._fresh_name("lookup_outcome"))
+        P_.assume(z3.And(oc >= 0, oc <= 4))
+        looked.append((a[1], oc))
+        if P_.branch(oc == 0):
+            raise PyExc(P_.mk_exc("KeyError", "x"))
+        if P_.branch(oc == 1):
+            return H.obj("found_class", ["Class"])
+        al = H.obj("found_alias", ["Alias"])
+        H.final_memo[id(al)] = (z3.If(oc == 2, 0, z3.If(oc == 3, 1, 2)), H.obj("found_alias.final", ["Class"]))
+        return al
+    P.opaque_hooks["_griffe.mixins:GetMembersMixin.get_member"] = get_member
+    q = MD + "Class.resolved_bases"
+
+    def hint_resolved(P_, nm):
+        return sym_seq(P_, "resolved_so_far", lambda i: H.obj(f"earlier[{zint(i).sexpr()[:12]}]", ["Class"]))
+
+    def post_body(P_, before, after):
+        rb0, rb1 = before["resolved_bases"], after["resolved_bases"]
+        n0, n1 = zint(P_.seq_len(rb0)), zint(P_.seq_len(rb1))
+        if not looked:
+            P_.prove("every_base_is_looked_up", False)
+            return
+        path, oc = looked[-1]
+        if isinstance(path, SUnion):
+            path = P_.choose(path)
+        i = zint(before["__ibases"])
+        P_.prove("the_base_is_looked_up_by_its_path", zstr(path) == BASE_PATH(i))
+        resolvable = z3.Or(oc == 1, oc == 2)
+        P_.prove("a_resolvable_base_is_appended_an_unresolvable_one_is_skipped", n1 == n0 + z3.If(resolvable, 1, 0))
+        if P_.branch(resolvable):
+            last = P_.seq_at(rb1, SInt(n0))
+            if isinstance(last, SUnion):
+                last = P_.choose(last)
+            P_.prove("appended_base_is_the_class_found_never_an_alias", isinstance(last, SObj) and P_.resolve_cls(last) == "Class")
+        k_ = P_.fresh_int("earlier_index")
+        if P_.branch(z3.And(k_.z >= 0, k_.z < n0)):
+            P_.prove("bases_resolved_so_far_are_kept_in_place", P_.identical(P_.seq_at(rb1, k_), P_.seq_at(rb0, k_)))
+    P.loop_specs[(q, 0)] = dict(mode="inv", name="bases", no_break=True, post_body=post_body,
+                                hints={"resolved_bases": hint_resolved, "base_path": lambda P_, nm: P_.fresh_str(nm), "resolved_base": lambda P_, nm: None,
+                                       "base": lambda P_, nm: None})
+    kind, res = outcome(P, lambda: P.getattr(cls, "resolved_bases"))
+    P.prove("never_raises", kind == "ok", exc=(P.resolve_cls(res) if kind == "raise" else ""))
+    P.cover("resolved_bases")
